@@ -5,3 +5,4 @@ import SqlModel.Default
 import SqlModel.Splitter
 import SqlModel.Tree
 import SqlModel.Pipeline
+import SqlModel.Sexp
